@@ -636,7 +636,10 @@ func scanContentOne(p *Prog, r *Report, rule string, m mgrSpec, components []str
 						want = Path(sv) + suffix
 					}
 					found[comp] = true
-					r.Check(rule, fmt.Sprintf("%s|scan:%s", base, comp), want != "" && other == want, p.InstrPos(c), fmt.Sprintf("existing entries' %s%s is compared with %s; the new entry's %s is %s", comp, suffix, other, comp, want))
+					// the features themselves are compared: an attribute of them (the address) identifies less — two peers
+					// have equal client addresses as long as their device address is not known yet
+					whole := suffix == "" || comp != "ClientFeature" // local (server) features have complete, unique addresses
+					r.Check(rule, fmt.Sprintf("%s|scan:%s", base, comp), want != "" && other == want && whole, p.InstrPos(c), fmt.Sprintf("existing entries' %s%s is compared with %s; the new entry's %s is %s; whole feature objects compared: %v", comp, suffix, other, comp, want, whole))
 				}
 			}
 		}
